@@ -98,6 +98,10 @@ def run(tier, seed):
             # hand-over from an attempt to its delay), information requests in each of the four wait loops
             life_scs = U.life_stage(chk, rig, [U.life_stop_in_delay, U.life_info], "c12l",
                                     vlib.rng_for(seed, PROP + ":life"), tier == "thorough")
+            if tier == "thorough":
+                # finding F16 (probabilistic): an attempt with retries left ends between its unit's handling
+                # of Stop and nextest stopping itself
+                U.handover_race_stage(chk, rig)
     for sc in scs[:3]:
         chk.sample(sc)
     chk.sample(dict(pause_table=msg.splitlines()[3:11] if ok else None))
